@@ -28,7 +28,9 @@ from ..snapshot import brief, diff, snapshot
 RULE = (
     "seeded structured elections (<=6 projects, <=6 voters, four ballot types, list and multi profiles) x every applicable entry "
     "point with caller-owned parameter objects (initial allocation list, initial loads, rule_params / mes_params dicts, "
-    "rule_sequence and rule_params lists, payment functions, sat_profile); plus call sequences sharing all objects; "
+    "rule_sequence and rule_params lists, payment functions, sat_profile); plus call sequences sharing all objects; both streams "
+    "repeated over less usual constructions of the profile argument (built without instance=, linked to another edition of the "
+    "instance, deep-copied with its own project objects, validation off; multiprofiles by conversion or built directly); "
     "non-trivial = the call returned normally on an election with >=2 projects and >=2 voters; distinct by (entry, case hash)"
 )
 ASSUMPTIONS = [
@@ -45,8 +47,15 @@ SOLVER_SATS = {"Relative_Cost_Sat", "Additive_Cardinal_Relative_Sat"}
 # world: real objects of one election
 
 
+# legal but less usual ways of building the profile argument (the default construction links the profile to the very instance
+# object that is also passed to the rule).  A profile is a list / Counter of ballots with an OPTIONAL `instance=` link
+# (default: an empty Instance()), so a rule may be handed a profile that carries no instance, another edition of the
+# instance, or its own copies of the project objects; none of this entitles a callee to write to the profile.
+VARIANTS = ["profile_without_instance", "profile_other_instance", "profile_deepcopied", "validation_off"]
+
+
 class World:
-    def __init__(self, case: Case, multi: bool, seed: int):
+    def __init__(self, case: Case, multi: bool, seed: int, variant: str = "standard"):
         import pabutools.election as e
         from pabutools.rules import BudgetAllocation
 
@@ -90,6 +99,38 @@ class World:
         self.payment = [{self.projs[n]: core.to_num(F(1, 2) if n in b else F(0)) for n in names} for b in case.ballots]
         self.sat_profile = None
         self.details = None
+        self.variant = variant
+        if variant != "standard":
+            self._apply_variant(variant, seed)
+
+    def _apply_variant(self, variant, seed):
+        """rebuilds the profile arguments from the same ballot objects (no draw from self.rng: the parameter objects above are
+        the same as in the standard world of this seed)"""
+        lp = self.listprof
+        cls = type(lp)
+        if variant == "profile_without_instance":
+            kw = {}
+        elif variant == "profile_other_instance":
+            other = copy.deepcopy(self.inst)  # e.g. an earlier edition of the election: same projects, another budget
+            other.budget_limit = self.inst.budget_limit + 1
+            other.meta = {"description": "earlier edition"}
+            kw = {"instance": other}
+        elif variant == "validation_off":
+            kw = {"instance": self.inst, "ballot_validation": False}
+        elif variant == "profile_deepcopied":
+            kw = None
+        else:
+            raise ValueError(variant)
+        new = copy.deepcopy(lp) if kw is None else cls(list(lp), **kw)  # a plain list as initialiser: nothing is inherited
+        self.listprof = new
+        if not self.multi:
+            self.prof = new
+        elif seed & 1:
+            self.prof = new.as_multiprofile()
+        else:
+            # the multiprofile built directly from frozen ballots
+            mcls = type(lp.as_multiprofile())
+            self.prof = mcls([b.frozen() for b in new], **({"instance": new.instance, "ballot_validation": new.ballot_validation} if kw is None else kw))
 
     def rules(self):
         import pabutools.rules as R
@@ -286,12 +327,12 @@ def observe(name, func, kwargs):
     return status, diffs, res
 
 
-def violation(name, case, multi, seed, status, d, mode):
+def violation(name, case, multi, seed, status, d, mode, variant="standard"):
     arg, path, b, a = d
     return {
-        "what": f"{public_name(name)} modified its argument `{arg}` at {path}: {b} -> {a}",
+        "what": f"{public_name(name)} modified its argument `{arg}` at {path}: {b} -> {a}" + ("" if variant == "standard" else f" [{variant}]"),
         "case": case.to_json(),
-        "cfg": {"multi": multi, "seed": seed, "entry": name, "mode": mode, "status": status},
+        "cfg": {"multi": multi, "seed": seed, "entry": name, "mode": mode, "status": status, "variant": variant},
         "impl": a,
         "expected": b,
         "sig": {"call": public_name(name), "arg": arg},
@@ -307,7 +348,7 @@ def worker_main(path_in, path_out):
     with open(path_out, "a") as out:
         for t in tasks:
             case = Case.from_json(t["case"])
-            w = World(case, t["multi"], t["seed"])
+            w = World(case, t["multi"], t["seed"], t.get("variant", "standard"))
             E = all_entries(w)
             if t["entry"] not in E:
                 out.write(json.dumps({"id": t["id"], "status": "n/a", "diffs": []}) + "\n")
@@ -371,22 +412,23 @@ def run_solver_tasks(ctx, tasks):
 # run
 
 
-def run_election(ctx, case, multi, seed, solver_tasks, solver_budget):
-    w = World(case, multi, seed)
+def run_election(ctx, case, multi, seed, solver_tasks, solver_budget, variant="standard"):
+    w = World(case, multi, seed, variant)
     E = all_entries(w)
+    ctx.count("profile_construction", variant + ("/multi" if multi else "/list"))
     for name in E:
         if is_solver(name):
             if len(solver_tasks) < solver_budget:
-                solver_tasks.append({"id": len(solver_tasks), "case": case.to_json(), "multi": multi, "seed": seed, "entry": name})
+                solver_tasks.append({"id": len(solver_tasks), "case": case.to_json(), "multi": multi, "seed": seed, "entry": name, "variant": variant})
             continue
         func, kwargs = E[name]()
         status, diffs, _ = observe(name, func, kwargs)
         record(ctx, name, case, status)
         if diffs:
             for d in diffs[:1]:
-                ctx.violations.append(violation(name, case, multi, seed, status, d, "single"))
+                ctx.violations.append(violation(name, case, multi, seed, status, d, "single", variant))
             # rebuild the world so that later calls are judged on untouched objects
-            w = World(case, multi, seed)
+            w = World(case, multi, seed, variant)
             E2 = all_entries(w)
             for k in E2:
                 E[k] = E2[k]
@@ -401,9 +443,9 @@ def record(ctx, name, case, status):
         ctx.nontrivial.add((name, case.key()))
 
 
-def run_sequence(ctx, case, multi, seed, length):
+def run_sequence(ctx, case, multi, seed, length, variant="standard"):
     """several calls sharing all objects; answers compared with answers on fresh deep copies"""
-    w = World(case, multi, seed)
+    w = World(case, multi, seed, variant)
     E = all_entries(w)
     names = [n for n in E if not is_solver(n)]
     rng = random.Random(seed ^ 0x5EED)
@@ -414,6 +456,7 @@ def run_sequence(ctx, case, multi, seed, length):
         if rich:
             chosen[i] = rng.choice(rich)
     ctx.count("sequences", "run")
+    ctx.count("profile_construction", variant + ("/multi" if multi else "/list") + " (sequence)")
     for name in chosen:
         func, kwargs = E[name]()
         try:
@@ -425,7 +468,8 @@ def run_sequence(ctx, case, multi, seed, length):
         record(ctx, name, case, status)
         ctx.count("sequence_calls", public_name(name))
         if diffs:
-            ctx.violations.append(violation(name, case, multi, seed, status, diffs[0], "sequence"))
+            ctx.violations.append(violation(name, case, multi, seed, status, diffs[0], "sequence", variant))
+            ctx.violations[-1]["cfg"]["chosen"] = chosen  # the replay draws the same sequence (its length is part of the draw)
             return
         if fresh is None:
             continue
@@ -435,7 +479,7 @@ def run_sequence(ctx, case, multi, seed, length):
                 {
                     "what": f"{public_name(name)} answers differently on reused objects than on fresh copies: {brief(canon_result(res), 100)} vs {brief(canon_result(fres), 100)} ({status} vs {fstatus})",
                     "case": case.to_json(),
-                    "cfg": {"multi": multi, "seed": seed, "entry": name, "mode": "sequence", "chosen": chosen},
+                    "cfg": {"multi": multi, "seed": seed, "entry": name, "mode": "sequence", "chosen": chosen, "variant": variant},
                     "sig": {"call": public_name(name), "arg": "<answer>"},
                 }
             )
@@ -468,6 +512,20 @@ def run(ctx):
         multi = ctx.rng.random() < 0.3
         seed = ctx.rng.getrandbits(32)
         run_sequence(ctx, case, multi, seed, ctx.rng.randint(3, 6))
+    # the same two streams over the less usual constructions of the profile argument (drawn after the standard ones: their
+    # stream is unchanged); solver entries of these elections share the solver budget
+    nvar = ctx.scale(48, 600)
+    solver_budget += ctx.scale(16, 100)
+    for k in range(nvar):
+        case = gen_case(ctx.rng)
+        multi = ctx.rng.random() < 0.4
+        seed = ctx.rng.getrandbits(32)
+        run_election(ctx, case, multi, seed, solver_tasks, solver_budget, VARIANTS[k % len(VARIANTS)])
+    for k in range(ctx.scale(40, 400)):
+        case = gen_case(ctx.rng)
+        multi = ctx.rng.random() < 0.4
+        seed = ctx.rng.getrandbits(32)
+        run_sequence(ctx, case, multi, seed, ctx.rng.randint(3, 6), VARIANTS[k % len(VARIANTS)])
     results = run_solver_tasks(ctx, solver_tasks)
     for t in solver_tasks:
         r = results.get(t["id"])
@@ -477,7 +535,7 @@ def run(ctx):
         record(ctx, t["entry"], case, r["status"])
         ctx.count("solver_calls", public_name(t["entry"]))
         for d in r["diffs"][:1]:
-            ctx.violations.append(violation(t["entry"], case, t["multi"], t["seed"], r["status"], tuple(d), "solver"))
+            ctx.violations.append(violation(t["entry"], case, t["multi"], t["seed"], r["status"], tuple(d), "solver", t.get("variant", "standard")))
     # correspondence with the static write summary (Lean side: regenerated Gen.Effects through the `effects` command):
     # an entry point whose summary is clean must show no difference here; a reported write must be in its summary
     summ = static_summary()
@@ -514,9 +572,9 @@ def run(ctx):
 def search(ctx, disagreements):
     ctx.rule = RULE
     tasks = []
-    for _ in range(600):
+    for k in range(600):
         case = gen_case(ctx.rng)
-        run_election(ctx, case, ctx.rng.random() < 0.35, ctx.rng.getrandbits(32), tasks, 0)
+        run_election(ctx, case, ctx.rng.random() < 0.35, ctx.rng.getrandbits(32), tasks, 0, (["standard"] + VARIANTS)[k % (1 + len(VARIANTS))])
         if len(ctx.violations) >= 5:
             break
 
@@ -524,7 +582,8 @@ def search(ctx, disagreements):
 def replay(payload):
     case = Case.from_json(payload["case"])
     cfg = payload["cfg"]
-    w = World(case, cfg["multi"], cfg["seed"])
+    variant = cfg.get("variant", "standard")
+    w = World(case, cfg["multi"], cfg["seed"], variant)
     E = all_entries(w)
     want = payload.get("sig", {})
     bad = []
@@ -541,14 +600,14 @@ def replay(payload):
 
     c = C()
     if cfg.get("mode") == "sequence":
-        run_sequence(c, case, cfg["multi"], cfg["seed"], len(cfg.get("chosen", [])) or 6)
+        run_sequence(c, case, cfg["multi"], cfg["seed"], len(cfg.get("chosen", [])) or 6, variant)
         bad = c.violations
     elif cfg.get("mode") == "solver":
-        t = {"id": 0, "case": payload["case"], "multi": cfg["multi"], "seed": cfg["seed"], "entry": cfg["entry"]}
+        t = {"id": 0, "case": payload["case"], "multi": cfg["multi"], "seed": cfg["seed"], "entry": cfg["entry"], "variant": variant}
         r = run_solver_tasks(c, [t]).get(0, {"diffs": [], "status": "aborted"})
-        bad = [violation(cfg["entry"], case, cfg["multi"], cfg["seed"], r["status"], tuple(d), "solver") for d in r["diffs"][:1]]
+        bad = [violation(cfg["entry"], case, cfg["multi"], cfg["seed"], r["status"], tuple(d), "solver", variant) for d in r["diffs"][:1]]
     else:
-        run_election(c, case, cfg["multi"], cfg["seed"], [], 0)
+        run_election(c, case, cfg["multi"], cfg["seed"], [], 0, variant)
         bad = c.violations
     for v in bad:
         if v["sig"].get("call") == want.get("call"):
